@@ -1806,16 +1806,23 @@ class ForAll(QuantifiedConditional):
         self._eval_parent_ = parent
 
         solution_set = None
+        # bindings of the other variables for which the condition fails for some value of the quantified expression
+        rejected = []
 
         for var_val in self.variable._evaluate__(sources, parent=self):
             if solution_set is None:
-                solution_set = self.get_all_candidate_solutions(var_val.bindings)
+                solution_set, failed = self.get_all_candidate_solutions(
+                    var_val.bindings
+                )
             else:
-                solution_set = [
-                    sol
-                    for sol in solution_set
-                    if self.evaluate_condition({**sol, **var_val.bindings})
-                ]
+                kept, failed = [], []
+                for sol in solution_set:
+                    if self.evaluate_condition({**sol, **var_val.bindings}):
+                        kept.append(sol)
+                    else:
+                        failed.append(sol)
+                solution_set = kept
+            rejected.extend(failed)
             if not solution_set:
                 solution_set = []
                 break
@@ -1830,19 +1837,33 @@ class ForAll(QuantifiedConditional):
             OperationResult({**sources, **sol}, False, self) for sol in solution_set
         ]
 
+        # Each rejected binding is reported once as false, so that an enclosing else-if can try its other branch for it.
+        reported = set()
+        for sol in rejected:
+            key = tuple(sorted((k, v.id_) for k, v in sol.items()))
+            if key not in reported:
+                reported.add(key)
+                yield OperationResult({**sources, **sol}, True, self)
+
     def get_all_candidate_solutions(self, sources: Dict[int, HashedValue]):
+        """
+        :return: The bindings of the other variables that satisfy the condition under the given value of the quantified
+         expression, and those that do not.
+        """
         values_that_satisfy_condition = []
+        values_that_fail_condition = []
         # Evaluate the condition under this particular universal value
         for condition_val in self.condition._evaluate__(sources, parent=self):
-            if condition_val.is_false:
-                continue
             condition_val_bindings = {
                 k: v
                 for k, v in condition_val.bindings.items()
                 if k in self.condition_unique_variable_ids
             }
-            values_that_satisfy_condition.append(condition_val_bindings)
-        return values_that_satisfy_condition
+            if condition_val.is_false:
+                values_that_fail_condition.append(condition_val_bindings)
+            else:
+                values_that_satisfy_condition.append(condition_val_bindings)
+        return values_that_satisfy_condition, values_that_fail_condition
 
     def evaluate_condition(self, sources: Dict[int, HashedValue]) -> bool:
         for condition_val in self.condition._evaluate__(sources, parent=self):
